@@ -21,6 +21,9 @@ theorem lost_wakeup_in_old_code : (reach false true 24 [init]).any (lost false t
 reads off `UntilInterrupt::poll` on every run — the poll looks at CATCH before it polls `accept()`, and again after it published its waker -/
 theorem source_is_the_proved_system : Ohkami.Gen.pollRecheck = true ∧ Ohkami.Gen.pollFlagFirst = true := by decide
 
+/-- ... and `howl` ends by awaiting the wait group itself, to its end (`wg.await`, not raced against a timer): what `howl_waits` and the `wg_*` theorems are about -/
+theorem source_awaits_every_session : Ohkami.Gen.howlAwaitsWaitGroup = true := by decide
+
 /-- **The server stops accepting, also under load.** In every reachable state in which the handler has run to completion, the accept loop
 returns `None` within three of its own steps, whatever connections arrive meanwhile (every pattern of arrivals before each step): no
 connection that is waiting, and no stream of connections, keeps it accepting. -/
